@@ -20,7 +20,7 @@ RULE = ("random setter histories (set_eps / set_sig_figures with and without arg
         "intersection) and, for Point/Vector, by 4E (must be unequal); finally the previous setting is restored and the first "
         "scenario re-evaluated; a scenario whose realised float perturbation is 0 or off by more than an ulp is not judged; "
         "distinct by content hash")
-KINDS = ("P", "VEC", "L", "PL", "S", "H", "PG", "PH")
+KINDS = ("P", "VEC", "L", "PL", "S", "H", "PG", "PH", "PLG")      # PLG: a Plane given in general form a x + b y + c z = d
 FRAMES = {
     "axis": ((1, 0, 0), (0, 1, 0), (0, 0, 1)),
     "axis-perm": ((0, 0, 1), (1, 0, 0), (0, 1, 0)),
@@ -44,6 +44,8 @@ def required_cells(tier):
             req["kind:%s/E=1e-%d" % (k, e)] = 3 if q else 60
     for f in FRAMES:
         req["frame:" + f] = 50
+    req["general-form:perturbed-coefficient-was-zero"] = 30
+    req["general-form:perturbed-coefficient-was-non-zero"] = 30
     req["history:nonpower"] = 50
     req["history:noarg"] = 50
     req["clause:4E-unequal"] = 100
@@ -106,6 +108,8 @@ def _defpoints(kind):
         return [("p", (0, 0, 0)), ("p", (2, 0, 0)), ("p", (2, 2, 0)), ("p", (0, 2, 0))]
     if kind == "PH":
         return [("p", (a, b, c)) for a in (0, 2) for b in (0, 2) for c in (0, 2)]
+    if kind == "PLG":
+        return [("g", (0, 0, 1))]
     raise ValueError(kind)
 
 
@@ -125,6 +129,8 @@ def _build(G, kind, vals):
         return G.HalfLine(P(vals[0]), V(vals[1]))
     if kind == "PL":
         return G.Plane(P(vals[0]), V(vals[1]))
+    if kind == "PLG":
+        return G.Plane(vals[0][0], vals[0][1], vals[0][2], vals[0][3])
     if kind == "S":
         return G.Segment(P(vals[0]), P(vals[1]))
     if kind == "PG":
@@ -134,6 +140,8 @@ def _build(G, kind, vals):
 
 def _points_of(G, kind, vals):
     """the points of the object that its twin must contain"""
+    if kind == "PLG":
+        return [G.Point(*vals[0][4:7])]
     if kind in ("L", "H", "PL"):
         return [G.Point(*vals[0])]
     if kind in ("S", "PG", "PH"):
@@ -147,6 +155,10 @@ def _coords(case):
     out = []
     for typ, (a, b, c) in _defpoints(case["kind"]):
         v = [a * fr[0][t] + b * fr[1][t] + c * fr[2][t] for t in range(3)]
+        if typ == "g":
+            # coefficients (a, b, c) = third frame vector, d = n.o (exact: n integral, o in eighths); the point o rides along
+            out.append([float(x) for x in v] + [float(sum(v[t] * o[t] for t in range(3)))] + [float(x) for x in o])
+            continue
         if typ == "p":
             v = [o[t] + v[t] for t in range(3)]
         out.append([float(x) for x in v])
@@ -185,6 +197,7 @@ def _evaluate(G, kind, A, B, valsA, valsB):
     """outcome vector of the tolerant-equality clauses for the pair (A, B)"""
     out = {}
     out["eq"] = bool(A == B) and bool(B == A)
+    out["ne"] = (not (A != B)) and (not (B != A))
     if kind != "VEC" or True:
         try:
             out["hash"] = hash(A) == hash(B)
@@ -201,7 +214,7 @@ def _evaluate(G, kind, A, B, valsA, valsB):
         out["contains"] = ok
         try:
             r = G.intersection(A, B)
-            out["coincident"] = (r is not None) and (M.kind(r) == kind) and bool(r == A)
+            out["coincident"] = (r is not None) and (M.kind(r) == ("PL" if kind == "PLG" else kind)) and bool(r == A)
         except Exception as e:
             out["coincident"] = "raises %s: %s" % (type(e).__name__, e)
     elif kind == "P":
@@ -263,6 +276,9 @@ def judge(case):
         vals = _coords(case)
         which = case["which"] % len(vals)
         ax = case["axis"]
+        if kind == "PLG":
+            ax = case["which"] % 4           # one of the coefficients a, b, c, d
+            mu.cell("general-form:perturbed-coefficient-was-%s" % ("zero" if vals[0][ax] == 0 else "non-zero"))
         delta = case["sign"] * E / case["div"]
         valsB = [list(v) for v in vals]
         valsB[which][ax] = vals[which][ax] + delta
